@@ -58,8 +58,7 @@ class MAIL(Aggregate):
         # Keep input free of side effects
         elem = deepcopy(elem)
 
-        frm = elem.find("./FROM")
-        if frm is not None:
+        for frm in elem.findall("./FROM"):
             logger.debug("Renaming <FROM> to <FRM>")
             frm.tag = "FRM"
 
